@@ -365,7 +365,7 @@ def run(chk, b, tier):
         seq = [[], [["--no-tags"]], [["--include", "refs/heads"], ["--exclude", "/refs/heads/n000.*/"]], []][k % 4]
         argv = ["--json", "--no-progress", "--show-refs"] + [a for o in seq for a in o]
         # half of the runs write their reference listing to a reader that takes it in small pieces with pauses
-        slow = [None, (4096, 2), None, (512, 1), None, (65536, 20), None, (4096, 0.2)][k % 8]
+        slow = [None, (4096, 2), None, (512, 1, 300), None, (65536, 20, 600), None, (4096, 0.2)][k % 8]
         r = R.sizer(sz, gmany, argv, env={"GOMAXPROCS": ["1", "2", "4", "16"][k % 4]}, tmpdir=tmp, timeout=300, slow_stderr=slow)
         chk.count()
         if r.rc != 0:
@@ -431,6 +431,8 @@ def run(chk, b, tier):
     chk.cov["api_patterns"] = len(cases)
     chk.cov["api_names"] = len(names)
     chk.cov["api_true_matches"] = matches
+    from ._camp import generic_fault_sweep
+    generic_fault_sweep(chk, b, "C06", [['--json', '--no-progress', '--include', 'refs/heads', '--exclude', 'refs/heads/dev'], ['--json', '--no-progress', '--include', '@mine', '--no-tags']])
     chk.cov["rule"] = ("CLI: every option sequence of length <= %d over a %d-option alphabet (prefix with/without slash, cut "
                        "mid-component, regexps with alternation/classes, @group incl. nested and rule-less groups, built-in "
                        "flags, deprecated spellings) x {no ROOT, ROOT} on a 39-ref repository, plus a second repository with "
